@@ -453,6 +453,9 @@ func (r *e1run) fetchListed(si int, mp *m3u.Media, obsIdx int) {
 					r.add("C05", "content-type", "%s has content type %q, want %q", key, ct, wantCT)
 				}
 				b := rr.Body.Bytes()
+				if rr.TooBig {
+					r.add("C05", "listed-uri-endless-body", "%s is listed after write %d and its body does not end (more than %d bytes served, a few hundred thousand were written); ops %s", key, len(r.ops)-1, respMaxBody, r.opsString())
+				}
 				if len(b) == 0 {
 					r.add("C05", "listed-uri-empty", "%s is listed after write %d and GET returns status 200 with an empty body (no fragment, nothing to concatenate); ops %s", key, len(r.ops)-1, r.opsString())
 				}
